@@ -542,9 +542,25 @@ class Interp:
         return self.method(obj, name, list(args), dict(kw or {}))
 
     # ------------------------------------------------------------------ calls
+    @staticmethod
+    def bind_like(fnode, args, kw, skip=0):
+        """a summarised function is handed its arguments the way its own signature binds them: keyword arguments that continue the positional ones (in parameter order)
+        become positional, so a summary written for `f(a, b, c)` also serves `f(a, c=.., b=..)`"""
+        if fnode is None or fnode.args.vararg is not None:
+            return list(args), dict(kw)
+        names = [x.arg for x in fnode.args.posonlyargs + fnode.args.args][skip:]
+        args, kw = list(args), dict(kw)
+        for nm in names[len(args):]:
+            if nm in kw:
+                args.append(kw.pop(nm))
+            else:
+                break
+        return args, kw
+
     def call_function(self, mod, fnode, args, kw, closure_env=None, qn=None):
         if qn and qn in self.model.prims:
             self.model.summaries_used.add(qn)
+            args, kw = self.bind_like(fnode, args, kw)
             return self.model.prims[qn](self, *args, **kw)
         if self.model.trace_calls is not None and qn:
             self.model.trace_calls.append((qn, args, kw))
@@ -711,6 +727,9 @@ class Interp:
         if isinstance(obj, GA):
             if name in self.model.method_prims:
                 self.model.summaries_used.add("method:" + name)
+                fm_ = self.prog.find_method(obj.cls, name)
+                if fm_ is not None and "property" not in fm_.decorators:
+                    args, kw = self.bind_like(fm_.node, args, kw, skip=1)
                 return self.model.method_prims[name](self, obj, *args, **kw)
             if name in SOURCE_FIRST and name not in self._source_first_active:
                 # small GenomicArray helpers with a built-in summary: the repository's own body is interpreted when it can be,
@@ -775,7 +794,9 @@ class Interp:
             if fi.qn in self.model.prims:
                 fn = self.model.prims[fi.qn]
                 self.model.summaries_used.add(fi.qn)
-                w = lambda *a, **k: fn(self, *a, **k)
+                def w(*a, fn=fn, fnode=fi.node, **k):
+                    a, k = self.bind_like(fnode, a, k)
+                    return fn(self, *a, **k)
                 w.qn = fi.qn                  # (a summarised function passed on as a value is still that function)
                 return w
             return Closure(fi.node, {}, fi.mod, fi.qn)
